@@ -386,11 +386,64 @@ fn finish_blind_inner(case: &str, spec: &TxSpec, hyp: bool, nmarked: usize, r: B
     }
 }
 
+/// `C04 ctor <spec> seed=..`: the same guarantee through the public output constructors instead of Transaction::blind: every marked
+/// output but the last through TxOut::new_not_last_confidential (address = script + receiver key), the last marked one through
+/// TxOut::new_last_confidential given the secrets of all other outputs. Emitted only for specs that meet the hypotheses of the
+/// property, so the model's answer is the constant the theorems predict; the predicate is evaluated on the real result.
+fn eval_ctor(case: &str) -> Out {
+    let (spec, seed) = match (parse_spec(case), parse_seed(case)) { (Some(s), Some(d)) => (s, d), _ => return Out::ok("harnesserr parse".into()) };
+    if !c04_hypotheses(&spec) { return Out::ok("harnesserr hypotheses".into()); }
+    let (mut tx, spent, secrets) = build(&spec);
+    let mut rng = ChaCha20Rng::from_seed(seed);
+    let marked: Vec<usize> = (0..spec.outs.len()).filter(|j| is_marked(&spec.outs[*j])).collect();
+    let Some(&last) = marked.last() else { return Out::ok("harnesserr nothing marked".into()) };
+    let mut outsec: Vec<Option<TxOutSecrets>> = spec.outs.iter().map(|o| Some(TxOutSecrets::new(o.asset, AssetBlindingFactor::zero(), o.value, ValueBlindingFactor::zero()))).collect();
+    let mut reported: std::collections::BTreeMap<usize, (AssetBlindingFactor, ValueBlindingFactor)> = Default::default();
+    let r = catch_unwind(AssertUnwindSafe(|| -> Result<(), String> {
+        for &j in &marked {
+            let o = &spec.outs[j];
+            let NonceSpec::Key(sk) = &o.nonce else { unreachable!() };
+            let pk = PublicKey::from_secret_key(secp(), sk);
+            let spk = Script::from(o.script.clone());
+            if j != last {
+                let addr = elements::Address::from_script(&spk, Some(pk), &elements::AddressParams::ELEMENTS).ok_or("script has no address")?;
+                let (txo, abf, vbf, _) = TxOut::new_not_last_confidential(&mut rng, secp(), o.value, &addr, o.asset, &secrets).map_err(|e| format!("new_not_last_confidential: {}", show_ctxo_err(&e)))?;
+                tx.output[j] = txo; outsec[j] = Some(TxOutSecrets::new(o.asset, abf, o.value, vbf)); reported.insert(j, (abf, vbf));
+            } else {
+                let others: Vec<&TxOutSecrets> = outsec.iter().enumerate().filter(|(k, _)| *k != j).filter_map(|(_, s)| s.as_ref()).collect();
+                let (txo, abf, vbf, _) = TxOut::new_last_confidential(&mut rng, secp(), o.value, o.asset, spk, pk, &secrets, &others).map_err(|e| format!("new_last_confidential: {}", show_ctxo_err(&e)))?;
+                tx.output[j] = txo; reported.insert(j, (abf, vbf));
+            }
+        }
+        Ok(())
+    }));
+    let made = match r { Err(_) => "panic".to_string(), Ok(Err(e)) => format!("err {}", e), Ok(Ok(())) => "ok".to_string() };
+    let mut pred_fail = if made != "ok" { Some(format!("ctor-failed|the output constructors fail on a valid balanced explicit transaction: {}", made)) } else { None };
+    let mut result = made.clone();
+    if made == "ok" {
+        let verdict = verify_verdict(&tx, &spent);
+        if verdict != "ok" { pred_fail = Some(format!("ctor-tx-does-not-verify|verify_tx_amt_proofs returned {} on the transaction assembled from new_not_last_confidential / new_last_confidential outputs", verdict)); }
+        let mut unb = "unblinds".to_string();
+        for &j in &marked {
+            let o = &spec.outs[j];
+            let NonceSpec::Key(sk) = &o.nonce else { unreachable!() };
+            let txo = &tx.output[j];
+            let good = match catch_unwind(AssertUnwindSafe(|| txo.unblind(secp(), *sk))) {
+                Ok(Ok(s)) => { let (abf, vbf) = reported[&j]; s.asset == o.asset && s.value == o.value && s.asset_bf == abf && s.value_bf == vbf
+                    && Asset::new_confidential(secp(), s.asset, s.asset_bf) == txo.asset && Value::new_confidential_from_assetid(secp(), s.value, s.asset, s.value_bf, s.asset_bf) == txo.value }
+                _ => false };
+            if !good { unb = format!("unblind-differs:{}", j); if pred_fail.is_none() { pred_fail = Some(format!("ctor-unblind-differs|output {} built by the constructors does not unblind to the original asset/value and the reported blinding factors", j)); } }
+        }
+        result = format!("ok {} {}", verdict, unb);
+    }
+    Out { result, pred_fail }
+}
 pub fn eval(case: &str) -> Out {
     if let Some(o) = memo_take(case) { return o; }
     let kind = case.split(' ').nth(1).unwrap_or("");
     match kind {
         "blind" => eval_blind(case),
+        "ctor" => eval_ctor(case),
         _ => Out::ok("harnesserr kind".into()),
     }
 }
@@ -553,6 +606,18 @@ pub fn gen(rng: &mut ChaCha20Rng, n: usize, thorough: bool) -> Vec<Case> {
             push(&mut out, &spec, r32(rng), tags.clone());
         }
         k += 1;
+    }
+    // (1b) the same through the public output constructors (new_not_last_confidential / new_last_confidential)
+    for k in 0..(if thorough { n / 6 } else { 24 }) {
+        let sh = Shape { nin: 1 + k % 3, nassets: 1 + (k / 3) % 2, extra_outs: (k / 2) % 3, iss: [0, 4, 1, 0][k % 4], fee: k % 4 != 3 };
+        let mut tags = vec!["valid".to_string(), "via-output-constructors".to_string()];
+        let base = gen_balanced(rng, &sh, &mut tags);
+        let nm = base.outs.iter().filter(|o| !o.script.is_empty()).count() as u32;
+        let mask = if k % 2 == 0 { (1u32 << nm) - 1 } else { rng.gen_range(1..(1u32 << nm)) };
+        let spec = mark(rng, &base, mask);
+        if !c04_hypotheses(&spec) { continue; }
+        shape_tags(&spec, &mut tags);
+        out.push(Case { text: format!("C04 ctor {} seed={}", fmt_spec(&spec), hex(&r32(rng))), tags, nontrivial: true });
     }
     // (2) edge and negative stream
     let sh = Shape { nin: 2, nassets: 2, extra_outs: 2, iss: 0, fee: true };
